@@ -283,9 +283,11 @@ class FlagByExactValueProvider(BaseFlagProvider):
             if data < 0 or data > flag_mask:
                 raise OutOfRangeLoadError(0, flag_mask, data)
 
-            # data already has been validated for all edge cases
-            # so enum lookup cannot raise an error
-            return enum(data)
+            try:
+                return enum(data)
+            except ValueError:
+                # flag with multi-bit members could have no member for some combinations of bits
+                raise MsgLoadError("Bad flag value", data)
 
         return flag_loader
 
